@@ -190,7 +190,7 @@ func c16Base(c *run.Ctx, n1, nr, n2, nm int, wrap bool) *c16State {
 // c16Damage is one damage operation.
 type c16Damage struct {
 	Key uint
-	Op  string // alter, trunc, remove, stray, spool
+	Op  string // alter, trunc, remove, stray, spool, twin
 	Pos int
 	Val byte
 }
@@ -261,6 +261,15 @@ func (s *c16State) apply(dmgs []c16Damage) *c16State {
 			n.spool = append(n.spool, fmt.Sprintf("%05x.spool", dm.Key))
 			n.dmgKinds = append(n.dmgKinds, "spool-leftover")
 			descs = append(descs, dm.String())
+			continue
+		case "twin":
+			// a foreign file whose name reads as the record's key to a lenient
+			// parser: the record's name in upper case
+			if name := fmt.Sprintf("%05x", dm.Key); strings.ToUpper(name) != name {
+				n.spool = append(n.spool, strings.ToUpper(name))
+				n.dmgKinds = append(n.dmgKinds, "upper-case-twin")
+				descs = append(descs, dm.String())
+			}
 			continue
 		}
 		delete(n.removed, dm.Key)
@@ -824,6 +833,15 @@ func c16Variants(c *run.Ctx, st *c16State, k, extra int) [][]c16Damage {
 	}
 	strayKeys := []uint{1, 0x3fff, 0x4000, 0x6001, 0x7fff}
 	out = append(out, []c16Damage{{Key: strayKeys[c.Rng.Intn(len(strayKeys))], Op: "stray", Pos: c.Rng.Intn(40), Val: byte(c.Rng.Intn(256))}})
+	var lettered []uint
+	for _, key := range keys {
+		if name := fmt.Sprintf("%05x", key); strings.ToUpper(name) != name {
+			lettered = append(lettered, key)
+		}
+	}
+	if len(lettered) != 0 {
+		out = append(out, []c16Damage{{Key: lettered[c.Rng.Intn(len(lettered))], Op: "twin"}})
+	}
 	for i := 0; i < extra; i++ {
 		n := 2 + c.Rng.Intn(max(k-1, 1))
 		var set []c16Damage
@@ -841,6 +859,8 @@ func c16Variants(c *run.Ctx, st *c16State, k, extra int) [][]c16Damage {
 			set = append(set, c16Damage{Key: strayKeys[c.Rng.Intn(len(strayKeys))], Op: "stray", Pos: c.Rng.Intn(40), Val: byte(c.Rng.Intn(256))})
 		case 1:
 			set = append(set, c16Damage{Key: keys[c.Rng.Intn(len(keys))], Op: "spool"})
+		case 2:
+			set = append(set, c16Damage{Key: keys[c.Rng.Intn(len(keys))], Op: "twin"})
 		}
 		out = append(out, set)
 	}
